@@ -20,6 +20,31 @@ const DECLS: &str = "commodity USD\n\ncommodity EUR\n\ncommodity JPY\n\ncommodit
 /// The same commodities with display formats: evaluation stays exact whatever precision is declared.
 const DECLS_FMT: &str = "commodity USD\n    format 1,000.00 USD\n\ncommodity EUR\n    format 1,000.0 EUR\n\ncommodity JPY\n    format 1,000 JPY\n\ncommodity AAPL\n    format 1,000.0000 AAPL\n\n";
 
+/// The same commodities, two of them with an alias: an expression may spell a commodity either way.
+const DECLS_ALIAS: &str = "commodity USD\n    alias Dollar\n\ncommodity EUR\n    alias Euro\n\ncommodity JPY\n\ncommodity AAPL\n\n";
+
+/// Every other occurrence of `USD` / `EUR` (as a whole word) written through its alias.
+fn through_aliases(text: &str) -> String {
+    let mut out = String::new();
+    let mut k = 0;
+    let mut rest = text;
+    loop {
+        let (pos, name, alias) = match (rest.find("USD"), rest.find("EUR")) {
+            (Some(a), Some(b)) if a < b => (a, "USD", "Dollar"),
+            (Some(_), Some(b)) => (b, "EUR", "Euro"),
+            (Some(a), None) => (a, "USD", "Dollar"),
+            (None, Some(b)) => (b, "EUR", "Euro"),
+            (None, None) => break,
+        };
+        out.push_str(&rest[..pos]);
+        out.push_str(if k % 2 == 0 { alias } else { name });
+        k += 1;
+        rest = &rest[pos + 3..];
+    }
+    out.push_str(rest);
+    out
+}
+
 thread_local! {
     static ERR_BOUND: std::cell::Cell<f64> = const { std::cell::Cell::new(0.0) };
 }
@@ -155,10 +180,10 @@ impl C08 {
         // ---- context 1: Ledger::eval
         {
             rec.op("Ledger::eval", &text);
-            let with_formats = rng.chance(1, 2);
-            rec.count(if with_formats { "eval:formats-declared" } else { "eval:no-formats" });
-            let files = vec![(ops::ROOT.to_string(), if with_formats { DECLS_FMT } else { DECLS }.to_string())];
-            let t2 = text.clone();
+            let variant = rng.below(3);
+            rec.count(["eval:no-formats", "eval:formats-declared", "eval:aliases-declared"][variant as usize]);
+            let files = vec![(ops::ROOT.to_string(), [DECLS, DECLS_FMT, DECLS_ALIAS][variant as usize].to_string())];
+            let t2 = if variant == 2 { through_aliases(&text) } else { text.clone() };
             let got = guarded(rec, || {
                 ops::with_processed(&files, ops::ROOT, None, |rctx, r| match r {
                     Err(e) => Err(format!("process failed: {}", e)),
